@@ -99,7 +99,7 @@ func (c *Client) caller(ctx context.Context) Caller {
 
 // yield parks at the scheduler; returns the outcome.
 func (c *Client) yield(ctx context.Context, verb string, gvk schema.GroupVersionKind, ns, name string, menu []sim.Outcome) (sim.Outcome, uint32, error) {
-	if c.Sim == nil {
+	if c.Sim == nil || sim.NoYield(ctx) {
 		return sim.OK, 0, nil
 	}
 	if !c.Faults {
